@@ -585,6 +585,14 @@ class ProvRDFSerializer(Serializer):
                 obj = self.decode_rdf_representation(stmt[2], graph)
                 other_attributes[id].append((pm.PROV["type"], obj))
         for id, pred, obj in graph:
+            if pred in relation_mapper or "qualified" in pred:
+                # the ends of a relation are passed on as IRI strings: make
+                # sure a namespace is known for each of them (the RDF writer
+                # only keeps the prefixes that some abbreviated name uses)
+                for node in (id, obj):
+                    if isinstance(node, URIRef) and self.valid_identifier(node) is None:
+                        prefix, iri, _ = graph.namespace_manager.compute_qname(node)
+                        self.document.add_namespace(prefix, str(iri))
             id = str(id)
             if id not in other_attributes:
                 other_attributes[id] = []
